@@ -1,6 +1,7 @@
 (** Evaluator glue for C14: judges the system-call traces recorded with strace
     while the real save paths ran. *)
-From AGH Require Import Base.Run Base.FS.
+From Coq Require Export Uint63.
+From AGH Require Import Base.Run Base.FS Model.SaveLoop.
 Local Open Scope N_scope.
 
 (** Short constructors for the trace printer.  Flags: creat excl trunc wr app. *)
@@ -15,16 +16,71 @@ Definition U := Unlink.
 Definition FT := Ftruncate.
 Definition TP := TruncatePath.
 
-(** chunk id = sequence number * 2^40 + length in bytes *)
-Definition chunk_len (x : N) : N := x mod 1099511627776.
+(** Chunk mode: one element per write call = CRC-32 of the bytes strace showed
+    of the call * 2^30 + length in bytes.  The case files carry these elements
+    as primitive 63-bit integer literals (tens of thousands of them per large
+    save: a binary N literal each makes coqc spend minutes on elaboration);
+    [DU] turns them into the model's [data]. *)
+Definition chunk_len (x : N) : N := x mod 1073741824.
+Definition DU (xs : list int) : data := map (fun x => Z.to_N (Uint63.to_Z x)) xs.
 Definition byte_len (bytes_mode : bool) (c : data) : N :=
   if bytes_mode then nlen c else fold_left (fun a x => a + chunk_len x) c 0.
 
-(** A run of writes in chunk mode: ids are consecutive from [seq]. *)
-Fixpoint WS (fd seq : N) (lens : list N) : list op :=
-  match lens with
-  | [] => []
-  | l :: r => W fd (if l =? 0 then [] else [seq * 1099511627776 + l]) :: WS fd (seq + 1) r
+(** A run of writes in chunk mode, one element per call. *)
+Definition WH (fd : N) (xs : list int) : list op :=
+  map (fun x => W fd (if chunk_len x =? 0 then [] else [x])) (DU xs).
+
+(** What the harness says about one save of the case, for the save model
+    (Model/SaveLoop.v) to reproduce. *)
+Inductive sobs :=
+  | SAny (n : N)                                   (* n operations not judged by the save model *)
+  | SProbe (fd1 p1 fd2 p2 : N) (rename_fails : bool) (* renameio.TempDir probing $TMPDIR *)
+  | SSave (update : bool)      (* false: renameio.WriteFile; true: DNSFilter.update *)
+          (fd tmp : N)         (* descriptor and temporary name, as recorded *)
+          (ending : N)         (* 0 replace, 1 unchanged (skip), 2 abort (write / download / parser failure) *)
+          (fault : N)          (* 0 none, 1 creation of the temporary file, 2 fsync, 3 rename *)
+          (res : N).           (* reported by the save: 0 replaced, 1 not replaced without error, 2 error *)
+
+Definition outcome_class (r : outcome) : N :=
+  match r with Replaced => 0 | Skipped => 1 | Failed _ => 2 end.
+
+Fixpoint leading_writes (fd : N) (t : list op) : list data :=
+  match t with
+  | Write f d :: t' => if f =? fd then d :: leading_writes fd t' else []
+  | _ => []
+  end.
+
+Fixpoint skipn_N {A} (l : list A) (m : list op) : list A :=
+  match m, l with
+  | _ :: m', _ :: l' => skipn_N l' m'
+  | _, _ => l
+  end.
+
+Fixpoint prefix_eqb (m t : list op) : bool :=
+  match m, t with
+  | [] , _ => true
+  | x :: m', y :: t' => op_eqb x y && prefix_eqb m' t'
+  | _ :: _, [] => false
+  end.
+
+(** The recorded trace is, save by save, EXACTLY the operations the save
+    model computes from the harness's description of the save (the data of
+    the write calls is taken from the trace; the model decides which calls
+    there are, in which order, and what the save reports). *)
+Fixpoint replay (dst : path) (ss : list sobs) (t : list op) : bool :=
+  match ss with
+  | [] => match t with [] => true | _ => false end
+  | SAny n :: r => replay dst r (skipn (N.to_nat n) t)
+  | SProbe fd1 p1 fd2 p2 rf :: r =>
+      let m := probe_ops fd1 p1 fd2 p2 rf in
+      prefix_eqb m t && replay dst r (skipn_N t m)
+  | SSave upd fd tmp ending fault res :: r =>
+      let done := match t with Open _ _ _ :: t' => leading_writes fd t' | _ => [] end in
+      let e := if ending =? 0 then EReplace else if ending =? 1 then ESkip else EAbort AtRead in
+      let p := {| p_open := fault =? 1; p_write := None; p_sync := fault =? 2; p_close := false;
+                  p_rename := fault =? 3 |} in
+      let mr := save_ops (negb upd) fd tmp dst done e p in
+      prefix_eqb (fst mr) t && (outcome_class (snd mr) =? res) && replay dst r (skipn_N t (fst mr))
   end.
 
 Inductive case :=
@@ -39,19 +95,25 @@ Inductive case :=
            (bytes_mode : bool)
            (ordered : bool)        (* false: concurrent saves, publication order unknown to the harness *)
            (obs_lens : list (option N))
-           (obs_versions : list (option data)).
+           (obs_versions : list (option data))
+           (saves : list sobs).
 
 Definition eqb_odata := eqb_option eqb_bytes.
 Definition mem_odata (v : option data) (l : list (option data)) := existsb (eqb_odata v) l.
 
 (** 1 trace_safe; 2 no leftovers; 3 the published versions have the observed
-    lengths; 4 (byte mode) they are the observed contents; 5 (byte mode) every
-    state visible at any instant or after a crash at any prefix, enumerated by
-    the model, is one of them; 6 once dst names a file it names one after
-    every later operation (never renamed away, unlinked or otherwise absent). *)
+    lengths (the write calls of the trace sum to the length of the intended
+    content); 4 they ARE the intended contents (byte mode: byte for byte;
+    chunk mode: the intended content cut at the boundaries of the recorded
+    write calls, every element with the CRC of the bytes strace showed); 5
+    (byte mode) every state visible at any instant or after a crash at any
+    prefix, enumerated by the model, is one of them; 6 once dst names a file
+    it names one after every later operation (never renamed away, unlinked or
+    otherwise absent); 7 the save model reproduces the trace save by save and
+    predicts what each save reported. *)
 Definition checks (c : case) : list bool :=
   match c with
-  | CTrace dst keep ents t bm ord lens vers =>
+  | CTrace dst keep ents t bm ord lens vers saves =>
       let s := boot ents in
       let av := all_versions s t dst in
       [ trace_safe dst s t;
@@ -61,25 +123,24 @@ Definition checks (c : case) : list bool :=
          else Nat.eqb (length al) (length lens) &&
               forallb (fun x => existsb (eqb_option N.eqb x) lens) al &&
               eqb_option N.eqb (hd None al) (hd None lens));
-        (if bm then
-           if ord then eqb_list eqb_odata av vers
-           else forallb (fun v => mem_odata v vers) av && eqb_odata (hd None av) (hd None vers)
-         else true);
+        (if ord then eqb_list eqb_odata av vers
+         else forallb (fun v => mem_odata v vers) av && eqb_odata (hd None av) (hd None vers));
         (if bm then forallb (fun v => mem_odata v av) (visible_states s t dst) else true);
-        dst_stays dst s t ]
+        dst_stays dst s t;
+        replay dst saves t ]
   end.
 
 Definition case_ok (c : case) : bool := forallb (fun b => b) (checks c).
 
 Definition mismatches := Base.Run.mismatches case_ok.
 
-(** For replay files: the six verdicts, the index of the first unsafe
+(** For replay files: the seven verdicts, the index of the first unsafe
     operation, the index of the first operation after which dst is gone, the
     names left over, and (byte mode) the visible states that are not a
     published version. *)
 Definition explain (c : case) :=
   match c with
-  | CTrace dst keep ents t bm ord lens vers =>
+  | CTrace dst keep ents t bm ord lens vers saves =>
       let s := boot ents in
       let av := all_versions s t dst in
       (checks c, first_unsafe dst s t 0, first_absent dst s t 0,
